@@ -113,6 +113,27 @@ pub fn check_code(code: &[u8], features: &[&str], acc: &mut Acc) -> CaseResult {
             }
         }
     }
+    // push data: the subject steps over the bytes of an immediate as no-ops right after its PUSH, so on
+    // every path a data byte is visited exactly as often as the PUSH it belongs to; more often means it
+    // was reached some other way (a jump into push data, or data decoded as code)
+    for s in &run.states {
+        let mut push_at = 0usize;
+        for o in 0..code.len() {
+            match kinds[o] {
+                Kind::Start => push_at = o,
+                _ => {
+                    let vd = s.visited_instructions().visit_count(o as u32).unwrap_or(0);
+                    let vp = s.visited_instructions().visit_count(push_at as u32).unwrap_or(0);
+                    if vd > vp {
+                        return fail(
+                            "executed an offset the EVM cannot reach: push data was executed as code".into(),
+                            format!("offset {o} (data of the PUSH at {push_at}) was visited {vd} times, the PUSH {vp} times"),
+                        );
+                    }
+                }
+            }
+        }
+    }
     // reference sets
     let mut may = BTreeSet::new();
     let mut not_only_landed: BTreeSet<usize> = BTreeSet::new();
